@@ -38,7 +38,17 @@ PARTIAL = ["numerical clauses (factors contract back to the tensor, Q/U/Vh isome
 ASSUMPTIONS = ["leg lists contain non-negative Python ints (NumPy would also accept negative axes)",
                "both leg lists have the same sequence type (tuple + list raises TypeError in the library)"]
 
-TOL = 1e-10
+TOL = 1e-10          # relative to the norm of the tensor (every slack scales with the data)
+ISO_TOL = 1e-9       # isometries have entries of order one whatever the data; grows with sqrt(bond)
+
+
+def _scale(t) -> float:
+    nrm = float(np.linalg.norm(t))
+    return nrm if nrm > 0 and math.isfinite(nrm) else 1.0
+
+
+def _iso_tol(bond) -> float:
+    return ISO_TOL * max(1.0, math.sqrt(max(int(bond), 1)))
 LETTERS = string.ascii_lowercase
 
 
@@ -105,7 +115,8 @@ def gen_cases(ctx):
                     "complex": rng.random() < 0.5,
                     "fill": rng.choice(["normal", "normal", "lowrank", "lowrank", "int", "zero", "dupcol"]),
                     "seed": rng.randrange(10 ** 9),
-                    "aslist": rng.random() < 0.25}
+                    "aslist": rng.random() < 0.25,
+                    "scale": rng.choice([1.0, 1.0, 1.0, 1e-6, 1e3, 1e6, 1e-12])}
             if kind == "contr":
                 case["cap"] = rng.choice([1, 1, 2, 3])
             cases.append(case)
@@ -147,6 +158,12 @@ def gen_cases(ctx):
 
 
 def build_tensor(case):
+    t = _build_tensor(case)
+    sc = case.get("scale", 1.0)
+    return t * sc if sc != 1.0 else t
+
+
+def _build_tensor(case):
     sh = tuple(case["shape"])
     rng = random.Random(case["seed"])
     nprng = np.random.default_rng(case["seed"])
@@ -314,7 +331,7 @@ def _case_qr(ctx, case, model_out):
         if a + b == list(range(len(sh))) and q.shape != t.shape:
             probs.append(f"KEEP with the last leg split off: Q shape {q.shape} != input shape {t.shape}")
     if not probs:
-        scale = max(1.0, float(np.linalg.norm(t)))
+        scale = _scale(t)
         rec = _reconstruct(q, r, a, b, len(sh))
         err = float(np.linalg.norm(rec - t))
         if err > TOL * scale:
@@ -322,9 +339,9 @@ def _case_qr(ctx, case, model_out):
         qm = q.reshape(-1, q.shape[-1])
         g = qm.conj().T @ qm
         if mode == "keep":
-            if np.linalg.norm(g @ g - g) > 1e-9 or np.linalg.norm(g - g.conj().T) > 1e-9:
+            if np.linalg.norm(g @ g - g) > _iso_tol(g.shape[0]) or np.linalg.norm(g - g.conj().T) > _iso_tol(g.shape[0]):
                 probs.append("KEEP: Q^H Q is not an orthogonal projector (Q not a partial isometry)")
-        elif np.linalg.norm(g - np.eye(g.shape[0])) > 1e-9:
+        elif np.linalg.norm(g - np.eye(g.shape[0])) > _iso_tol(g.shape[0]):
             probs.append(f"Q is not an isometry (|Q^H Q - 1| = {np.linalg.norm(g - np.eye(g.shape[0])):.3e})")
         ctx.hyp_validated += 1
     if probs:
@@ -344,13 +361,13 @@ def _svd_checks(u, s, vh, t, sh, a, b, bu, bv, k, label):
         probs.append(f"{label}: S has shape {s.shape}, expected ({k},)")
     if probs:
         return probs
-    if np.any(s < 0) or np.any(np.diff(s) > 1e-12 * max(1.0, float(s[0]) if len(s) else 1.0)):
+    if not np.all(np.isfinite(s)) or np.any(s < 0) or np.any(np.diff(s) > 1e-12 * (float(s[0]) if len(s) else 0.0)):
         probs.append(f"{label}: singular values not non-negative descending: {s[:6]}")
     um = u.reshape(-1, bu)
     vm = vh.reshape(bv, -1)
-    if np.linalg.norm(um.conj().T @ um - np.eye(bu)) > 1e-9:
+    if np.linalg.norm(um.conj().T @ um - np.eye(bu)) > _iso_tol(bu):
         probs.append(f"{label}: U is not an isometry")
-    if np.linalg.norm(vm @ vm.conj().T - np.eye(bv)) > 1e-9:
+    if np.linalg.norm(vm @ vm.conj().T - np.eye(bv)) > _iso_tol(bv):
         probs.append(f"{label}: Vh is not an isometry (rows not orthonormal)")
     return probs
 
@@ -383,7 +400,7 @@ def _case_svd(ctx, case, model_out):
         bu, bv = k, k       # the property does not fix what KEEP means for an SVD: reduced would do as well
     probs = _svd_checks(u, s, vh, t, sh, a, b, bu, bv, k, mode)
     if not probs:
-        scale = max(1.0, float(np.linalg.norm(t)))
+        scale = _scale(t)
         rec = _reconstruct(u[..., :k], vh[:k, ...], a, b, len(sh), mid=s)
         err = float(np.linalg.norm(rec - t))
         if err > TOL * scale:
@@ -408,7 +425,7 @@ def _case_contr(ctx, case, model_out):
     _tally(ctx, case, m, n)
     m_svd, m_tsvd, m_v, m_u, m_e = model_out
     no_trunc = SVDParameters(max_bond_dim=float("inf"), rel_tol=float("-inf"), total_tol=float("-inf"))
-    scale = max(1.0, float(np.linalg.norm(t)))
+    scale = _scale(t)
     # reference singular values from an independent matricisation
     mat = np.transpose(t, a + b).reshape(m, n)
     s_ref = np.linalg.svd(mat, compute_uv=False)
@@ -446,8 +463,10 @@ def _case_contr(ctx, case, model_out):
         ea, eb = (int(x) for x in mline.split())
         cn = np.linalg.norm(fa.reshape(-1, kb), axis=0)
         rn = np.linalg.norm(fb.reshape(kb, -1), axis=1)
-        tol = 1e-8 * max(1.0, float(s_ref[0]) if len(s_ref) else 1.0)
-        if np.max(np.abs(cn - s_ref[:kb] ** (ea / 2))) > tol or np.max(np.abs(rn - s_ref[:kb] ** (eb / 2))) > tol:
+        s0 = float(s_ref[0]) if len(s_ref) and s_ref[0] > 0 else 1.0
+        # loose (a wrong absorbing factor is off by O(1) relative); sqrt amplifies round-off of tiny values
+        if (np.max(np.abs(cn - s_ref[:kb] ** (ea / 2))) > 1e-6 * s0 ** (ea / 2)
+                or np.max(np.abs(rn - s_ref[:kb] ** (eb / 2))) > 1e-6 * s0 ** (eb / 2)):
             ctx.corr_fail(case, f"contr splitting {name}: model says S^{ea}/2 into U and S^{eb}/2 into Vh; "
                                 f"column norms {cn[:4]}, row norms {rn[:4]}, S {s_ref[:4]}")
     if len(prods) == 3:
@@ -471,7 +490,7 @@ def _case_contr(ctx, case, model_out):
         ctx.corr_fail(case, f"truncated_tensor_svd cap={cap} shape={sh} u={a} v={b}: impl [{impl}] model [{mo}]")
     q = _svd_checks(u, np.asarray(s), vh, t, sh, a, b, kept, kept, kept, f"truncated(cap={cap})")
     if not q:
-        if np.max(np.abs(np.asarray(s) - s_ref[:kept])) > 1e-9 * max(1.0, float(s_ref[0])):
+        if np.max(np.abs(np.asarray(s) - s_ref[:kept])) > 1e-9 * float(s_ref[0]):
             q.append(f"truncated SVD keeps {np.asarray(s)[:4]} but the largest singular values are {s_ref[:kept][:4]}")
         rec = _reconstruct(u, vh, a, b, len(sh), mid=np.asarray(s))
         err = float(np.linalg.norm(rec - t))
@@ -515,6 +534,8 @@ def shrink(case):
             yield dict(case, fill="normal")
         if case.get("complex"):
             yield dict(case, complex=False)
+        if case.get("scale", 1.0) != 1.0:
+            yield dict(case, scale=1.0)
         # drop a leg
         for i in range(len(sh)):
             if len(sh) > 1:
